@@ -284,12 +284,16 @@ func runC15(c *Ctx) {
 		rounds = 80
 	}
 	for r := 0; r < rounds; r++ {
-		c15Soak(c, r, backends[r%4], dir, false)
+		c15Soak(c, r, backends[r%4], dir, 0)
 	}
 	// the same with 40000-byte regions under a packet size of 65536 on both sides (MaxPacketUnchecked, MaxTxPacket): still one
 	// packet per operation, so still atomic
 	for r := 0; r < rounds/2; r++ {
-		c15Soak(c, r, backends[r%4], dir, true)
+		c15Soak(c, r, backends[r%4], dir, 1)
+	}
+	// and with the largest packet a server can be configured for (262144) and regions that nearly fill it
+	for r := 0; r < rounds/2; r++ {
+		c15HugeReads(c, r, []string{"req", "reqalloc"}[r%2])
 	}
 }
 
@@ -299,11 +303,12 @@ func runC15(c *Ctx) {
 // that region (or the initial one), whole; a reader never sees an older pattern after a newer one; at the end every region
 // holds the last pattern written. Many requests are in flight at once all the time (with the allocator on: pages are lent
 // and returned continuously). Oracle only.
-func c15Soak(c *Ctx, r int, be, dir string, big bool) {
+func c15Soak(c *Ctx, r int, be, dir string, variant int) {
 	G, region, iters := 8, 512, 150
 	var copts []sftp.ClientOption
 	var maxTx uint32
-	if big {
+	switch variant {
+	case 1:
 		G, region, iters = 4, 40000, 40
 		copts, maxTx = []sftp.ClientOption{sftp.MaxPacketUnchecked(1 << 16)}, 1<<16
 	}
@@ -431,5 +436,93 @@ func c15Soak(c *Ctx, r int, be, dir string, big bool) {
 			}
 		}
 	}
+	c.Oracle(nn, bad == "", bad)
+}
+
+// c15HugeReads (kind hugeread): single-packet reads of the largest size a server can be configured for. Packet size 262144 on
+// both sides; two regions of 262131..262135 bytes; a writer per region rewrites the last 64 bytes (one small WRITE) 300 times
+// with the pattern of its iteration; a reader per region reads the whole region with ONE ReadAt. One packet, one atomic step:
+// the 64 tail bytes of every read belong to one iteration. Request server only (its store's ReadAt/WriteAt are atomic).
+func c15HugeReads(c *Ctx, r int, be string) {
+	const G, iters = 2, 300
+	region := 262131 + r%5
+	tail := func(g, i int) []byte {
+		b := make([]byte, 64)
+		for k := range b {
+			b[k] = byte(i*5 + g*3 + k)
+		}
+		return b
+	}
+	initial := make([]byte, G*region)
+	for g := 0; g < G; g++ {
+		copy(initial[(g+1)*region-64:], tail(g, 0))
+	}
+	fs := newMemFS()
+	mf := fs.get("/f", true)
+	mf.data = initial
+	pr, err := newPair(pairOpt{reqServer: true, handlers: fs.handlers(), alloc: be == "reqalloc", clientOpts: []sftp.ClientOption{sftp.MaxPacketUnchecked(1 << 18)}, maxTx: 1 << 18})
+	if err != nil {
+		c.Diag("hugeread pair: %v", err)
+		return
+	}
+	nn := c.Case("hugeread", kvi("round", r), kvs("be", be), kvi("region", region))
+	c.NT(nn)
+	c.Stat("hugeread_" + be)
+	f, err := pr.Client.OpenFile("/f", os.O_RDWR)
+	if err != nil {
+		c.Oracle(nn, false, "open: "+err.Error())
+		pr.Close()
+		return
+	}
+	var mu sync.Mutex
+	bad := ""
+	fail := func(s string) {
+		mu.Lock()
+		if bad == "" {
+			bad = s
+		}
+		mu.Unlock()
+	}
+	var wg sync.WaitGroup
+	var done int32
+	for g := 0; g < G; g++ {
+		wg.Add(2)
+		go func(g int) {
+			defer wg.Done()
+			defer atomic.AddInt32(&done, 1)
+			for i := 1; i <= iters; i++ {
+				if n, err := f.WriteAt(tail(g, i), int64((g+1)*region-64)); err != nil || n != 64 {
+					fail(fmt.Sprintf("WriteAt failed: n=%d err=%v", n, err))
+					return
+				}
+			}
+		}(g)
+		go func(g int) {
+			defer wg.Done()
+			b := make([]byte, region)
+			for int(atomic.LoadInt32(&done)) < G {
+				n, err := f.ReadAt(b, int64(g*region))
+				if err != nil || n != region {
+					fail(fmt.Sprintf("ReadAt of %d bytes failed: n=%d err=%v", region, n, err))
+					return
+				}
+				t := b[region-64:]
+				for k := 1; k < 64; k++ {
+					if t[k]-byte(k) != t[0] {
+						fail(fmt.Sprintf("torn read: one ReadAt of %d bytes (one packet) returned a tail whose bytes %d.. come from another write than its first bytes", region, k))
+						return
+					}
+				}
+			}
+		}(g)
+	}
+	if !cctWait(&wg, 60*time.Second) {
+		c.Oracle(nn, false, "an operation on the shared Client did not return within 60 s")
+		pr.cliConn.Close()
+		pr.srvConn.Close()
+		return
+	}
+	f.Close()
+	pr.Close()
 	c.Oracle(nn, bad == "", bad)
 }
